@@ -112,6 +112,10 @@ def texts(rng, n):
              ("foo, bar tomorrow", datetime(2018, 3, 7)), ("early early morning", datetime(2018, 3, 7, 5, 0)), ("31.", datetime(2019, 2, 10)),
              ("12 am", datetime(2019, 2, 10, 0, 0)), ("monday foo", datetime(2019, 2, 10)), ("tomorrow #work 5pm", datetime(2019, 2, 10)),
              ("call call bob monday", datetime(2019, 2, 10)), ("8 - 9 uhr #a-b", datetime(2019, 2, 10))]
+    # two expressions joined by one character and no blank (which characters separate, glue or leave a gap is the code's decision)
+    for g in samp(rng, list("!$%&'()*+,./:;<=>?@[]^_`{|}~") + ["x", "§", "×"], 8):
+        a, b = rng.choice(["tomorrow", "5.12.2020", "monday", "3 may"]), rng.choice(["5pm", "8:30", "9h", "noon"])
+        extra.append((a + g + b, datetime(2018, 3, 7, 12, 43)))
     rng.shuffle(pool)
     return extra + pool[:n]
 
